@@ -2,7 +2,8 @@
 # usage: sweep.sh <tier> <seed>...   runs every claimed check for each seed without touching evidence/
 cd "$(dirname "$0")/.."
 tier="$1"; shift
-ids=$(python3 -c "import json; print(' '.join(c['property_id'] for c in json.load(open('MANIFEST.json'))['checks']))")
+ids="$SWEEP_IDS"
+[ -z "$ids" ] && ids=$(python3 -c "import json; print(' '.join(c['property_id'] for c in json.load(open('MANIFEST.json'))['checks']))")
 for sd in "$@"; do
   for id in $ids; do
     out=$(VERIF_SEED=$sd ./check $id $tier --no-evidence 2>&1)
